@@ -1,1 +1,246 @@
-// harnesses for transaction (none yet)
+// C19 — transaction ids: 8 bytes, not reused within an activity before 2^24, activities never
+// share the 5-byte prefix (generator level).
+use super::*;
+
+/// Arbitrary valid in-block state of a MIDGenerator: any action id, any position in the block;
+/// the block's contents are constrained only where the next two draws read them - both inside the
+/// block's id range and different from each other, which is what *any permutation* of the block
+/// `[next_alloc - LEN, next_alloc)` guarantees (hook H2 replaces the shuffle by a permutation).
+fn arbitrary_mid_generator(idx: usize, next_block: u64, action: u64, a: u64, b: u64) -> MIDGenerator {
+    let len = MESSAGE_ID_PREALLOC_LEN as u64;
+    kani::assume(action < MAX_ACTION_ID);
+    kani::assume(idx < MESSAGE_ID_PREALLOC_LEN - 1);
+    // block k covers [k*LEN, (k+1)*LEN); the marker after it is (k+1)*LEN <= MAX_MESSAGE_ID
+    kani::assume(next_block >= 1 && next_block <= MAX_MESSAGE_ID / len);
+    let next_alloc = next_block * len;
+    let start = next_alloc - len;
+    kani::assume(a >= start && a < next_alloc && b >= start && b < next_alloc && a != b);
+    let mut ids = [0u64; MESSAGE_ID_PREALLOC_LEN];
+    ids[idx] = a;
+    ids[idx + 1] = b;
+    MIDGenerator {
+        action_id: action << MESSAGE_ID_SHIFT,
+        next_alloc,
+        curr_index: idx,
+        message_ids: ids,
+    }
+}
+
+#[kani::proof]
+#[kani::unwind(2)]
+fn c19_mid_generate_in_block() {
+    let idx: usize = kani::any();
+    mid_in_block(idx);
+    kani::cover!(true, "end of harness reached");
+}
+
+/// Same with the position in the block fixed (first, middle, last pair): much cheaper.
+#[kani::proof]
+#[kani::unwind(2)]
+fn c19_mid_generate_in_block_at_0() {
+    mid_in_block(0);
+    kani::cover!(true, "end of harness reached");
+}
+
+#[kani::proof]
+#[kani::unwind(2)]
+fn c19_mid_generate_in_block_at_1000() {
+    mid_in_block(1000);
+    kani::cover!(true, "end of harness reached");
+}
+
+#[kani::proof]
+#[kani::unwind(2)]
+fn c19_mid_generate_in_block_at_last() {
+    mid_in_block(MESSAGE_ID_PREALLOC_LEN - 2);
+    kani::cover!(true, "end of harness reached");
+}
+
+fn mid_in_block(idx: usize) {
+    let next_block: u64 = kani::any();
+    let action: u64 = kani::any();
+    let other_action: u64 = kani::any();
+    let a: u64 = kani::any();
+    let b: u64 = kani::any();
+    let mut g = arbitrary_mid_generator(idx, next_block, action, a, b);
+    let t1 = g.generate();
+    let t2 = g.generate();
+    let b1: [u8; 8] = t1.as_ref().try_into().unwrap();
+    let b2: [u8; 8] = t2.as_ref().try_into().unwrap();
+    assert!(t1.as_ref().len() == 8 && t2.as_ref().len() == 8, "C19: transaction id is not 8 bytes");
+    // big-endian composition: 5-byte action prefix, 3-byte message id
+    let v1 = u64::from_be_bytes(b1);
+    let v2 = u64::from_be_bytes(b2);
+    assert!(v1 != v2, "C19: two consecutive ids of one activity are equal");
+    assert!(v1 >> 24 == action && v1 & 0xff_ffff == a, "C19: id is not prefix(5 bytes, big endian) | message id(3 bytes)");
+    assert!(t1.action_id() == g.action_id() && t2.action_id() == g.action_id(), "C19: id does not carry its activity's prefix");
+    assert!(g.curr_index == idx + 2, "C19: generator position not advanced");
+    // an activity with a different action id has a different prefix
+    kani::assume(other_action < MAX_ACTION_ID && other_action != action);
+    let h = MIDGenerator::new(other_action << MESSAGE_ID_SHIFT);
+    assert!(h.action_id() != t1.action_id(), "C19: two activities share the 5-byte prefix");
+    // round trip through the wire bytes
+    let back = TransactionID::from_bytes(&b1);
+    assert!(back.is_some(), "C19: from_bytes refuses an 8-byte id");
+    let vb = u64::from_be_bytes(back.unwrap().as_ref().try_into().unwrap());
+    assert!(vb == v1, "C19: from_bytes does not restore the id");
+    kani::cover!(next_block == MAX_MESSAGE_ID / (MESSAGE_ID_PREALLOC_LEN as u64), "last block before the wrap");
+}
+
+/// Block regeneration at a block boundary: the new block is exactly [start, start + LEN) and the
+/// marker moves on, wrapping to 0 at 2^24. Concrete markers (DESIGN.md F14): 4 executions,
+/// checked through a symbolic probe index.
+fn mids_block(marker: u64, exp_start: u64) {
+    let (next, ids) = generate_mids(marker);
+    let i: usize = kani::any();
+    kani::assume(i < MESSAGE_ID_PREALLOC_LEN);
+    assert!(ids[i] == exp_start + i as u64, "C19: message id block is not [start, start + LEN)");
+    assert!(next == exp_start + MESSAGE_ID_PREALLOC_LEN as u64, "C19: message id marker wrong");
+    assert!(ids[i] < MAX_MESSAGE_ID, "C19: message id does not fit 3 bytes");
+}
+
+#[kani::proof]
+#[kani::unwind(2050)]
+fn c19_mid_block_first() {
+    mids_block(0, 0);
+    kani::cover!(true, "end of harness reached");
+}
+
+#[kani::proof]
+#[kani::unwind(2050)]
+fn c19_mid_block_last() {
+    let len = MESSAGE_ID_PREALLOC_LEN as u64;
+    mids_block(MAX_MESSAGE_ID - len, MAX_MESSAGE_ID - len);
+    kani::cover!(true, "end of harness reached");
+}
+
+#[kani::proof]
+#[kani::unwind(2050)]
+fn c19_mid_block_wrap() {
+    mids_block(MAX_MESSAGE_ID, 0);
+    kani::cover!(true, "end of harness reached");
+}
+
+fn aids_block(marker: u64, exp_start: u64) {
+    let (next, ids) = generate_aids(marker);
+    let i: usize = kani::any();
+    kani::assume(i < ACTION_ID_PREALLOC_LEN);
+    assert!(ids[i] == exp_start + i as u64, "C19: action id block is not [start, start + LEN)");
+    assert!(next == exp_start + ACTION_ID_PREALLOC_LEN as u64, "C19: action id marker wrong");
+    assert!(ids[i] < MAX_ACTION_ID, "C19: action id does not fit 5 bytes");
+}
+
+#[kani::proof]
+#[kani::unwind(2050)]
+fn c19_aid_block_last() {
+    let len = ACTION_ID_PREALLOC_LEN as u64;
+    aids_block(MAX_ACTION_ID - len, MAX_ACTION_ID - len);
+    kani::cover!(true, "end of harness reached");
+}
+
+#[kani::proof]
+#[kani::unwind(2050)]
+fn c19_aid_block_wrap() {
+    aids_block(MAX_ACTION_ID, 0);
+    kani::cover!(true, "end of harness reached");
+}
+
+/// Crossing a block boundary: a generator whose block is used up draws from a fresh block that is
+/// a permutation of the next id range (hook H2: <= 2 transpositions), so the id after the boundary
+/// lies in the next range - different from every id of the previous block.
+#[kani::proof]
+#[kani::unwind(2050)]
+fn c19_mid_generate_across_boundary() {
+    let action: u64 = kani::any();
+    let which: u8 = kani::any();
+    kani::assume(action < MAX_ACTION_ID);
+    kani::assume(which < 3);
+    let len = MESSAGE_ID_PREALLOC_LEN as u64;
+    let marker = match which {
+        0 => 0, // freshly created generator (lazy first block)
+        1 => len,
+        _ => MAX_MESSAGE_ID, // wrap
+    };
+    let mut g = MIDGenerator {
+        action_id: action << MESSAGE_ID_SHIFT,
+        next_alloc: marker,
+        curr_index: MESSAGE_ID_PREALLOC_LEN,
+        message_ids: [0u64; MESSAGE_ID_PREALLOC_LEN],
+    };
+    let t = g.generate();
+    let v = u64::from_be_bytes(t.as_ref().try_into().unwrap());
+    let start = if marker == MAX_MESSAGE_ID { 0 } else { marker };
+    assert!(v >> 24 == action, "C19: prefix lost across a block boundary");
+    assert!((v & 0xff_ffff) >= start && (v & 0xff_ffff) < start + len, "C19: id after a block boundary is not from the next id range");
+    assert!(g.curr_index == 1 && g.next_alloc == start + len, "C19: generator state wrong after a block boundary");
+    kani::cover!(true, "end of harness reached");
+}
+
+/// AIDGenerator: two consecutive activities get different prefixes; prefix < 2^40.
+#[kani::proof]
+#[kani::unwind(2)]
+fn c19_aid_generate_in_block() {
+    let idx: usize = kani::any();
+    aid_in_block(idx);
+    kani::cover!(true, "end of harness reached");
+}
+
+#[kani::proof]
+#[kani::unwind(2)]
+fn c19_aid_generate_in_block_at_0() {
+    aid_in_block(0);
+    kani::cover!(true, "end of harness reached");
+}
+
+#[kani::proof]
+#[kani::unwind(2)]
+fn c19_aid_generate_in_block_at_last() {
+    aid_in_block(ACTION_ID_PREALLOC_LEN - 2);
+    kani::cover!(true, "end of harness reached");
+}
+
+fn aid_in_block(idx: usize) {
+    let next_block: u64 = kani::any();
+    let a: u64 = kani::any();
+    let b: u64 = kani::any();
+    let len = ACTION_ID_PREALLOC_LEN as u64;
+    kani::assume(idx < ACTION_ID_PREALLOC_LEN - 1);
+    kani::assume(next_block >= 1 && next_block <= MAX_ACTION_ID / len);
+    let next_alloc = next_block * len;
+    let start = next_alloc - len;
+    kani::assume(a >= start && a < next_alloc && b >= start && b < next_alloc && a != b);
+    let mut ids = [0u64; ACTION_ID_PREALLOC_LEN];
+    ids[idx] = a;
+    ids[idx + 1] = b;
+    let mut g = AIDGenerator {
+        next_alloc,
+        curr_index: idx,
+        action_ids: ids,
+    };
+    let m1 = g.generate();
+    let m2 = g.generate();
+    assert!(m1.action_id() != m2.action_id(), "C19: two activities share the 5-byte prefix");
+    assert!(m1.action_id == a << MESSAGE_ID_SHIFT && m1.action_id >> MESSAGE_ID_SHIFT < MAX_ACTION_ID, "C19: action prefix does not fit 5 bytes");
+    assert!(m1.curr_index == MESSAGE_ID_PREALLOC_LEN && m1.next_alloc == 0, "C19: a new activity does not start with a fresh message id block");
+    assert!(g.curr_index == idx + 2, "C19: generator position not advanced");
+}
+
+/// TransactionID::from_bytes: Some iff exactly 8 bytes (every length 0..=32, content symbolic).
+#[kani::proof]
+#[kani::unwind(34)]
+fn c19_from_bytes_length_gate() {
+    let bytes: [u8; 32] = kani::any();
+    let mut n = 0;
+    while n <= 32 {
+        let r = TransactionID::from_bytes(&bytes[..n]);
+        assert!(r.is_some() == (n == 8), "C19: from_bytes accepts a length other than 8");
+        n += 1;
+    }
+    let t = TransactionID::from_bytes(&bytes[..8]).unwrap();
+    let mut k = 0;
+    while k < 8 {
+        assert!(t.as_ref()[k] == bytes[k], "C19: from_bytes alters the bytes");
+        k += 1;
+    }
+    kani::cover!(true, "end of harness reached");
+}
